@@ -11,7 +11,7 @@ RULE = ("(i) translator: the real make_children of each class is executed on sym
 ASSUMPTIONS = ["theorems hold over ordered fields; IEEE-754 rounding is not modelled (float behaviour is covered by the "
                "bit-level comparison and the monitor on explored inputs only)",
                "np.random.uniform(lo,hi) returns a value in [lo,hi]; np.random.randint(0,d) a value in [0,d)"]
-LEAN_EXTRA = ["PyXABProofs.Generated.Geometry"]
+LEAN_EXTRA = ["PyXABProofs.Generated.Geometry", "PyXABProofs.Props.C02tree"]
 TRUSTED = ["harness/translate_geometry.py (renders what it traced)", "harness/part_cases.py, harness/monitors.py", "lean/PyXABModel/Drv"]
 
 
